@@ -402,9 +402,12 @@ Proof.
   - rewrite Ho. f_equal. clear - HR. induction HR; simpl; congruence.
 Qed.
 
-(* k = 1 shortcut *)
-Lemma fold_one_fold {A} (text : list A) fb : fold text 1 fb = Ok ([text], [0]).
-Proof. reflexivity. Qed.
+(* k = 1 shortcut: the fold count is checked first (fix 3836b17), so the text must be non-empty *)
+Lemma fold_one_fold {A} (text : list A) fb : text <> [] -> fold text 1 fb = Ok ([text], [0]).
+Proof.
+  intros H. unfold fold. rewrite boundaries_ok; [reflexivity | lia |].
+  destruct text; [contradiction | simpl length; lia].
+Qed.
 
 Lemma unfold_single {A} (text : list A) : unfold [text] [0] = Ok text.
 Proof. unfold unfold. simpl. now rewrite app_nil_r. Qed.
@@ -427,10 +430,25 @@ Proof.
   apply fold_with_ok, default_bounds_valid; lia.
 Qed.
 
-Theorem fold_errors {A} (text : list A) k :
-  (k < 1)%Z \/ (Z.of_nat (length text) < k)%Z -> k <> 1%Z ->
-  fold text k None = Raise ValueError.
+(* fold with caller-given boundaries: the fold count is checked first, then the
+   caller's boundaries are used whatever the default ones are *)
+Theorem fold_custom_ok {A} (text : list A) k b :
+  (2 <= k)%Z -> (k <= Z.of_nat (length text))%Z -> valid_bounds b ->
+  fold text k (Some b) = Ok (fold_spec text b).
 Proof.
-  intros H Hk. unfold fold. destruct (Z.eqb_spec k 1); [contradiction|].
-  now rewrite boundaries_err.
+  intros H1 H2 Hv. unfold fold. rewrite boundaries_ok by lia. cbn [bind].
+  destruct (Z.eqb_spec k 1); [lia|]. now apply fold_with_ok.
+Qed.
+
+(* an invalid fold count is refused in every case: k = 1 and caller-given boundaries included *)
+Theorem fold_errors {A} (text : list A) k fb :
+  (k < 1)%Z \/ (Z.of_nat (length text) < k)%Z ->
+  fold text k fb = Raise ValueError.
+Proof.
+  intros H. unfold fold. now rewrite boundaries_err.
+Qed.
+
+Theorem fold_empty_raises {A} k fb : fold (@nil A) k fb = Raise ValueError.
+Proof.
+  apply fold_errors. simpl length. lia.
 Qed.
